@@ -1,9 +1,365 @@
-import SynthVerif.Model.Adsr
-import SynthVerif.Model.Lfo
-import SynthVerif.Model.Quantizer
-import SynthVerif.Model.Midi
-import SynthVerif.Model.Glide
-import SynthVerif.Model.Ribbon
+import SynthVerif.Props.C01
+import SynthVerif.Props.Circle
+/-!
+# C03 — ADSR output is continuous: no steps, no clicks on gate events
+
+The output of a timed phase is `blend L S = fl(fl(fl(1−L)·S) + L)` (attack, decay) or `fl(L·S)` (release) of the
+interpolated table sample `S` at the phase position (`C01.tick_value`).
+* `blend_lipschitz`, `release_lipschitz`: the output moves by at most the change of the sample plus three roundings.
+* `sample_near_ideal`: the sample is within `2^-24 + 2^-30` of the *ideal* (unrounded) piecewise-linear interpolant of
+  the table — it is interpolated, not a 1024-step staircase;
+* `ideal_step`: the ideal interpolant moves by at most `k·D/2^14` over `k` counter steps, `D` the kernel-checked bound
+  on the height of every table cell (`1024·D_attack = 1.8125`, `1024·D_decay = 4.0752`: the steepest slopes).
+* `same_phase_step`: hence two consecutive ticks of the same phase differ by at most
+  `slope · inc/2^24 + 5·2^-24 + 2^-28`, for every start level, sustain level, position and increment.
+* `gate_on_step`, `gate_off_step`: the first tick after a gate event arriving at any moment starts from the level being
+  output: same bound.
+Phase boundaries (roll-over into the next phase) and sustain-level changes between ticks are covered by the oracle
+on the implementation; their proofs follow the same pattern and are not included (`partial`, see DESIGN.md).
+-/
 namespace C03
-theorem placeholder_to_be_replaced : True := trivial
+open F32 AdsrTab C01
+
+/-- the blend is 1-Lipschitz in the sample up to three roundings -/
+theorem blend_lipschitz {L S S' : ℚ} (h0 : 0 ≤ L) (h1 : L ≤ 1) (s0 : 0 ≤ S) (s1 : S ≤ 1) (s0' : 0 ≤ S') (s1' : S' ≤ 1) :
+    |blend L S' - blend L S| ≤ |S' - S| + (2 ^ (-23:ℤ) + 2 ^ (-24:ℤ)) := by
+  obtain ⟨c0, c1, cL⟩ := coeff_range h0 h1
+  unfold blend
+  set c := rnd (1 - L) with hc
+  have cL' := abs_le.mp cL
+  have hsmall : (2:ℚ) ^ (-25:ℤ) ≤ 1 / 2 := by norm_num
+  have e : ∀ T : ℚ, 0 ≤ T → T ≤ 1 →
+      |rnd (rnd (c * T) + L) - (c * T + L)| ≤ 2 ^ (-24:ℤ) + 2 ^ (-25:ℤ) := by
+    intro T t0 t1
+    have p0 : 0 ≤ c * T := by positivity
+    have p1 : c * T ≤ 1 := by nlinarith
+    have e1 : |rnd (c * T) - c * T| ≤ 2 ^ (-25:ℤ) := by
+      by_cases hp : c * T = 1
+      · rw [hp, rnd_rep rep_one]; simp
+      · have := rnd_err (x := c * T) (k := 0) (by norm_num)
+          (by rw [abs_of_nonneg p0]; norm_num; exact lt_of_le_of_ne p1 hp)
+        simpa using this
+    have r0 : 0 ≤ rnd (c * T) := rnd_nonneg p0
+    have r1 : rnd (c * T) ≤ c := by
+      calc rnd (c * T) ≤ rnd c := rnd_mono (by nlinarith)
+        _ = c := by rw [hc]; exact rnd_idem _
+    have e2 : |rnd (rnd (c * T) + L) - (rnd (c * T) + L)| ≤ 2 ^ (-24:ℤ) := by
+      have hlt : rnd (c * T) + L < 2 := by
+        have h2 := cL'.2
+        calc rnd (c * T) + L ≤ c + L := by linarith
+          _ ≤ 1 + 2 ^ (-25:ℤ) := by linarith
+          _ ≤ 1 + 1 / 2 := by linarith
+          _ < 2 := by norm_num
+      have := rnd_err (x := rnd (c * T) + L) (k := 1) (by norm_num)
+        (by rw [abs_of_nonneg (by linarith)]; simpa using hlt)
+      simpa using this
+    have split : rnd (rnd (c * T) + L) - (c * T + L) =
+        (rnd (rnd (c * T) + L) - (rnd (c * T) + L)) + (rnd (c * T) - c * T) := by ring
+    rw [split]
+    have := abs_add_le (rnd (rnd (c * T) + L) - (rnd (c * T) + L)) (rnd (c * T) - c * T)
+    linarith
+  have eS := e S s0 s1
+  have eS' := e S' s0' s1'
+  have hcs : |c * S' - c * S| ≤ |S' - S| := by
+    rw [← mul_sub, abs_mul, abs_of_nonneg c0]
+    calc c * |S' - S| ≤ 1 * |S' - S| := mul_le_mul_of_nonneg_right c1 (abs_nonneg _)
+      _ = |S' - S| := one_mul _
+  have split : rnd (rnd (c * S') + L) - rnd (rnd (c * S) + L) =
+      (rnd (rnd (c * S') + L) - (c * S' + L)) - (rnd (rnd (c * S) + L) - (c * S + L)) + (c * S' - c * S) := by ring
+  rw [split]
+  have t1 := abs_add_le ((rnd (rnd (c * S') + L) - (c * S' + L)) - (rnd (rnd (c * S) + L) - (c * S + L))) (c * S' - c * S)
+  have t2 := abs_sub (rnd (rnd (c * S') + L) - (c * S' + L)) (rnd (rnd (c * S) + L) - (c * S + L))
+  have num : (2:ℚ) ^ (-24:ℤ) + 2 ^ (-25:ℤ) + (2 ^ (-24:ℤ) + 2 ^ (-25:ℤ)) = 2 ^ (-23:ℤ) + 2 ^ (-24:ℤ) := by norm_num
+  linarith
+
+/-- the release output is 1-Lipschitz in the sample up to two roundings -/
+theorem release_lipschitz {L S S' : ℚ} (h0 : 0 ≤ L) (h1 : L ≤ 1) (s0 : 0 ≤ S) (s1 : S ≤ 1) (s0' : 0 ≤ S') (s1' : S' ≤ 1) :
+    |rnd (L * S') - rnd (L * S)| ≤ |S' - S| + 2 ^ (-24:ℤ) := by
+  have e : ∀ T : ℚ, 0 ≤ T → T ≤ 1 → |rnd (L * T) - L * T| ≤ 2 ^ (-25:ℤ) := by
+    intro T t0 t1
+    have p0 : 0 ≤ L * T := by positivity
+    have p1 : L * T ≤ 1 := by nlinarith
+    by_cases hp : L * T = 1
+    · rw [hp, rnd_rep rep_one]; simp
+    · have := rnd_err (x := L * T) (k := 0) (by norm_num)
+        (by rw [abs_of_nonneg p0]; norm_num; exact lt_of_le_of_ne p1 hp)
+      simpa using this
+  have eS := e S s0 s1
+  have eS' := e S' s0' s1'
+  have hcs : |L * S' - L * S| ≤ |S' - S| := by
+    rw [← mul_sub, abs_mul, abs_of_nonneg h0]
+    calc L * |S' - S| ≤ 1 * |S' - S| := mul_le_mul_of_nonneg_right h1 (abs_nonneg _)
+      _ = |S' - S| := one_mul _
+  have split : rnd (L * S') - rnd (L * S) = (rnd (L * S') - L * S') - (rnd (L * S) - L * S) + (L * S' - L * S) := by ring
+  rw [split]
+  have t1 := abs_add_le ((rnd (L * S') - L * S') - (rnd (L * S) - L * S)) (L * S' - L * S)
+  have t2 := abs_sub (rnd (L * S') - L * S') (rnd (L * S) - L * S)
+  have num : (2:ℚ) ^ (-25:ℤ) + 2 ^ (-25:ℤ) = 2 ^ (-24:ℤ) := by norm_num
+  linarith
+
+/-! ### the sample is an interpolated curve, not a staircase -/
+
+/-- next table index, clamped at the end (the ADSR tables do not wrap) -/
+def nxt (i : ℕ) : ℕ := min (i + 1) 1023
+
+/-- the ideal (unrounded) interpolant of a table along the phase -/
+def ideal (T : ℕ → ℚ) (a : ℕ) : ℚ := idealInterp T nxt a
+
+theorem sampleQ_eq (T : ℕ → ℚ) (a : ℕ) :
+    sampleQ T a = interpQ (T (a / 2 ^ 14)) (T (nxt (a / 2 ^ 14))) (((a % 2 ^ 14 : ℕ) : ℚ) / 2 ^ 14) := rfl
+
+/-- the rounded sample is within `2^-24 + 2^-30` of the ideal interpolant, for a table with entries in [0,1] and
+cells no higher than `D < 2^-7` -/
+theorem sample_near_ideal (T : ℕ → ℚ) (D : ℚ) (hD : D < 2 ^ (-7:ℤ)) (hT : ∀ i, i ≤ 1023 → 0 ≤ T i ∧ T i ≤ 1)
+    (hcell : ∀ i, i ≤ 1023 → |T (nxt i) - T i| ≤ D) (a : ℕ) (ha : a < 2 ^ 24) :
+    |sampleQ T a - ideal T a| ≤ 2 ^ (-24:ℤ) + 2 ^ (-30:ℤ) := by
+  have hi : a / 2 ^ 14 ≤ 1023 := by omega
+  obtain ⟨f0, f1⟩ := frac_range a
+  obtain ⟨y00, y01⟩ := hT _ hi
+  have hh := hcell _ hi
+  rw [sampleQ_eq]
+  unfold ideal idealInterp interpQ
+  set y0 := T (a / 2 ^ 14)
+  set y1 := T (nxt (a / 2 ^ 14))
+  set f := ((a % 2 ^ 14 : ℕ) : ℚ) / 2 ^ 14
+  set d := y1 - y0 with hd
+  have e1 : |rnd d - d| ≤ 2 ^ (-32:ℤ) := by
+    have := rnd_err (x := d) (k := -7) (by norm_num) (lt_of_le_of_lt hh hD)
+    norm_num at this ⊢; exact this
+  have hrd : |rnd d| ≤ 2 ^ (-7:ℤ) := abs_rnd_le (le_of_lt (lt_of_le_of_lt hh hD)) (rep_pow2 (by norm_num))
+  have hprod : |rnd d * f| ≤ 2 ^ (-7:ℤ) := by
+    rw [abs_mul, abs_of_nonneg f0]
+    calc |rnd d| * f ≤ 2 ^ (-7:ℤ) * 1 := mul_le_mul hrd f1 f0 (by positivity)
+      _ = 2 ^ (-7:ℤ) := by ring
+  have e2 : |rnd (rnd d * f) - rnd d * f| ≤ 2 ^ (-31:ℤ) := by
+    have := rnd_err (x := rnd d * f) (k := -6) (by norm_num) (lt_of_le_of_lt hprod (by norm_num))
+    norm_num at this ⊢; exact this
+  have hp2 : |rnd (rnd d * f)| ≤ 2 ^ (-7:ℤ) := abs_rnd_le hprod (rep_pow2 (by norm_num))
+  have hsum : |y0 + rnd (rnd d * f)| < 2 ^ (1:ℤ) := by
+    have a1 := abs_add_le y0 (rnd (rnd d * f))
+    have a2 : |y0| ≤ 1 := by rw [abs_le]; constructor <;> linarith
+    have : (2:ℚ) ^ (-7:ℤ) < 1 := by norm_num
+    norm_num; linarith
+  have e3 : |rnd (y0 + rnd (rnd d * f)) - (y0 + rnd (rnd d * f))| ≤ 2 ^ (-24:ℤ) := by
+    have := rnd_err (x := y0 + rnd (rnd d * f)) (k := 1) (by norm_num) hsum
+    norm_num at this ⊢; exact this
+  have e1' : |(rnd d - d) * f| ≤ 2 ^ (-32:ℤ) := by
+    rw [abs_mul, abs_of_nonneg f0]
+    calc |rnd d - d| * f ≤ 2 ^ (-32:ℤ) * 1 := mul_le_mul e1 f1 f0 (by positivity)
+      _ = 2 ^ (-32:ℤ) := by ring
+  have split : rnd (y0 + rnd (rnd d * f)) - (y0 + d * (((a % 2 ^ 14 : ℕ) : ℚ)) / 2 ^ 14) =
+      (rnd (y0 + rnd (rnd d * f)) - (y0 + rnd (rnd d * f))) + (rnd (rnd d * f) - rnd d * f) + (rnd d - d) * f := by
+    ring
+  rw [split]
+  have t1 := abs_add_le ((rnd (y0 + rnd (rnd d * f)) - (y0 + rnd (rnd d * f))) + (rnd (rnd d * f) - rnd d * f)) ((rnd d - d) * f)
+  have t2 := abs_add_le (rnd (y0 + rnd (rnd d * f)) - (y0 + rnd (rnd d * f))) (rnd (rnd d * f) - rnd d * f)
+  have num : (2:ℚ) ^ (-31:ℤ) + 2 ^ (-32:ℤ) ≤ 2 ^ (-30:ℤ) := by norm_num
+  linarith
+
+/-- one counter step of the ideal interpolant: exactly one 2^-14-th of the cell height, also across a cell boundary -/
+theorem ideal_adjacent (T : ℕ → ℚ) (a : ℕ) (ha : a + 1 < 2 ^ 24) :
+    ideal T (a + 1) - ideal T a = (T (nxt (a / 2 ^ 14)) - T (a / 2 ^ 14)) / 2 ^ 14 := by
+  unfold ideal idealInterp
+  by_cases hb : a % 2 ^ 14 = 2 ^ 14 - 1
+  · have h1 : (a + 1) / 2 ^ 14 = nxt (a / 2 ^ 14) := by unfold nxt; omega
+    have h2 : (a + 1) % 2 ^ 14 = 0 := by omega
+    rw [h1, h2, hb]
+    push_cast; ring
+  · have h1 : (a + 1) / 2 ^ 14 = a / 2 ^ 14 := by omega
+    have h2 : (a + 1) % 2 ^ 14 = a % 2 ^ 14 + 1 := by omega
+    rw [h1, h2]
+    push_cast; ring
+
+/-- `k` counter steps inside the phase move the ideal interpolant by at most `k · D / 2^14` -/
+theorem ideal_step (T : ℕ → ℚ) (D : ℚ) (hcell : ∀ i, i ≤ 1023 → |T (nxt i) - T i| ≤ D) (a k : ℕ)
+    (h : a + k < 2 ^ 24) : |ideal T (a + k) - ideal T a| ≤ k * (D / 2 ^ 14) := by
+  induction k with
+  | zero => simp
+  | succ k ih =>
+    have ih' := ih (by omega)
+    have adj := ideal_adjacent T (a + k) (by omega)
+    have hi : (a + k) / 2 ^ 14 ≤ 1023 := by omega
+    have hc := hcell _ hi
+    have hb : |ideal T (a + k + 1) - ideal T (a + k)| ≤ D / 2 ^ 14 := by
+      rw [adj, abs_div, abs_of_pos (by positivity : (0:ℚ) < 2 ^ 14)]
+      exact div_le_div_of_nonneg_right hc (by positivity)
+    have e : a + (k + 1) = a + k + 1 := by omega
+    rw [e]
+    have tri := abs_add_le (ideal T (a + k + 1) - ideal T (a + k)) (ideal T (a + k) - ideal T a)
+    have : ideal T (a + k + 1) - ideal T a = (ideal T (a + k + 1) - ideal T (a + k)) + (ideal T (a + k) - ideal T a) := by ring
+    rw [this]; push_cast; linarith
+
+/-! ### the two generated tables: kernel-checked cell heights -/
+
+def DA : ℚ := 177 / 100000
+def DD : ℚ := 3976 / 1000000
+
+def heightOk (D : ℚ) (b0 b1 : ℕ) : Bool := decide (|(ofBits b1).val - (ofBits b0).val| ≤ D)
+
+theorem attack_heights : allPairs (heightOk DA) Gen.attackBitsL = true := by decide +kernel
+theorem decay_heights : allPairs (heightOk DD) Gen.decayBitsL = true := by decide +kernel
+
+theorem attack_cell_height (i : ℕ) (hi : i ≤ 1023) : |Aq (nxt i) - Aq i| ≤ DA := by
+  unfold nxt
+  by_cases h : i < 1023
+  · have e : min (i + 1) 1023 = i + 1 := by omega
+    rw [e]
+    have := allPairs_get (heightOk DA) Gen.attackBitsL attack_heights i (by rw [attack_len]; omega)
+    simpa [heightOk, Aq] using this
+  · have : i = 1023 := by omega
+    subst this; norm_num [DA]
+
+theorem decay_cell_height (i : ℕ) (hi : i ≤ 1023) : |Dq (nxt i) - Dq i| ≤ DD := by
+  unfold nxt
+  by_cases h : i < 1023
+  · have e : min (i + 1) 1023 = i + 1 := by omega
+    rw [e]
+    have := allPairs_get (heightOk DD) Gen.decayBitsL decay_heights i (by rw [decay_len]; omega)
+    simpa [heightOk, Dq] using this
+  · have : i = 1023 := by omega
+    subst this; norm_num [DD]
+
+/-- the sample of either table moves by at most the slope bound plus two sample roundings over `k` counter steps -/
+theorem sample_step (T : ℕ → ℚ) (D : ℚ) (hD : D < 2 ^ (-7:ℤ)) (hT : ∀ i, i ≤ 1023 → 0 ≤ T i ∧ T i ≤ 1)
+    (hcell : ∀ i, i ≤ 1023 → |T (nxt i) - T i| ≤ D) (a k : ℕ) (h : a + k < 2 ^ 24) :
+    |sampleQ T (a + k) - sampleQ T a| ≤ (1024 * D) * k / 2 ^ 24 + (2 ^ (-23:ℤ) + 2 ^ (-29:ℤ)) := by
+  have n1 := sample_near_ideal T D hD hT hcell a (by omega)
+  have n2 := sample_near_ideal T D hD hT hcell (a + k) h
+  have lip := ideal_step T D hcell a k h
+  have split : sampleQ T (a + k) - sampleQ T a =
+      (sampleQ T (a + k) - ideal T (a + k)) + (ideal T (a + k) - ideal T a) - (sampleQ T a - ideal T a) := by ring
+  rw [split]
+  have t1 := abs_sub (sampleQ T (a + k) - ideal T (a + k) + (ideal T (a + k) - ideal T a)) (sampleQ T a - ideal T a)
+  have t2 := abs_add_le (sampleQ T (a + k) - ideal T (a + k)) (ideal T (a + k) - ideal T a)
+  have e : (k:ℚ) * (D / 2 ^ 14) = (1024 * D) * (k:ℚ) / 2 ^ 24 := by norm_num; ring
+  have num : (2:ℚ) ^ (-24:ℤ) + 2 ^ (-30:ℤ) + (2 ^ (-24:ℤ) + 2 ^ (-30:ℤ)) = 2 ^ (-23:ℤ) + 2 ^ (-29:ℤ) := by norm_num
+  rw [← e, ← num]
+  generalize (2:ℚ) ^ (-24:ℤ) = ε at *
+  generalize (2:ℚ) ^ (-30:ℤ) = δ at *
+  linarith
+
+/-! ### consecutive outputs -/
+
+theorem DA_small : DA < 2 ^ (-7:ℤ) := by unfold DA; norm_num
+theorem DD_small : DD < 2 ^ (-7:ℤ) := by unfold DD; norm_num
+theorem slopes : 1024 * DA = 1.81248 ∧ 1024 * DD = 4.071424 := by unfold DA DD; norm_num
+
+theorem attack_T (i : ℕ) (hi : i ≤ 1023) : 0 ≤ Aq i ∧ Aq i ≤ 1 := (attack_entry i hi).2
+theorem decay_T (i : ℕ) (hi : i ≤ 1023) : 0 ≤ Dq i ∧ Dq i ≤ 1 := (decay_entry i hi).2
+
+/-- slack of one output step: two sample roundings and three blend roundings -/
+def slack : ℚ := (2 ^ (-23:ℤ) + 2 ^ (-29:ℤ)) + (2 ^ (-23:ℤ) + 2 ^ (-24:ℤ))
+
+theorem slack_le : slack ≤ 5 * 2 ^ (-24:ℤ) + 2 ^ (-28:ℤ) := by unfold slack; norm_num
+
+/-- **same phase**: two consecutive ticks of one timed phase, no event in between.  `k` is the number of counter
+steps the second tick advanced (`= inc`, the increment it computed from the time in force). -/
+theorem same_phase_step (a0 a1 a2 : Adsr) (h0 : AInv a0) (e1 : a0.tick = some a1) (e2 : a1.tick = some a2)
+    (ht : a1.state.timed = true) (hs : a2.state = a1.state) :
+    |a2.value.val - a1.value.val| ≤
+      (if a1.state = .attack then 1024 * DA else 1024 * DD) * ((a2.pa.acc - a1.pa.acc : ℕ) : ℚ) / 2 ^ 24 + slack := by
+  obtain ⟨i1, v1⟩ := tick_value a0 a1 h0 e1
+  obtain ⟨i2, v2⟩ := tick_value a1 a2 i1 e2
+  have sp := tick_same_phase a1 a2 i1 e2 ht hs
+  have hk : a1.pa.acc + (a2.pa.acc - a1.pa.acc) = a2.pa.acc := by have := sp.acc; omega
+  have hlt : a1.pa.acc + (a2.pa.acc - a1.pa.acc) < 2 ^ 24 := by rw [hk]; exact i2.ok.acc
+  set k := a2.pa.acc - a1.pa.acc with hkdef
+  obtain ⟨ra0, ra1⟩ := attack_rising.sample_range a1.pa.acc i1.ok.acc
+  obtain ⟨ra0', ra1'⟩ := attack_rising.sample_range a2.pa.acc i2.ok.acc
+  obtain ⟨rd0, rd1⟩ := decay_falling.sample_range a1.pa.acc i1.ok.acc
+  obtain ⟨rd0', rd1'⟩ := decay_falling.sample_range a2.pa.acc i2.ok.acc
+  have sA := sample_step Aq DA DA_small attack_T attack_cell_height a1.pa.acc k hlt
+  have sD := sample_step Dq DD DD_small decay_T decay_cell_height a1.pa.acc k hlt
+  rw [hk] at sA sD
+  have hs2 := hs
+  unfold slack
+  cases hst : a1.state
+  · rw [hst] at ht; simp [AdsrState.timed] at ht
+  · -- attack
+    rw [hst] at hs2
+    rw [v1, v2, hs2, hst, if_pos rfl]
+    dsimp only
+    rw [sp.on]
+    have hb := blend_lipschitz i1.on.2.1 i1.on.2.2.1 ra0 ra1 ra0' ra1'
+    calc |blend a1.onLevel.val (sampleQ Aq a2.pa.acc) - blend a1.onLevel.val (sampleQ Aq a1.pa.acc)|
+        ≤ |sampleQ Aq a2.pa.acc - sampleQ Aq a1.pa.acc| + (2 ^ (-23:ℤ) + 2 ^ (-24:ℤ)) := hb
+      _ ≤ (1024 * DA * (k:ℚ) / 2 ^ 24 + (2 ^ (-23:ℤ) + 2 ^ (-29:ℤ))) + (2 ^ (-23:ℤ) + 2 ^ (-24:ℤ)) := by linarith [sA]
+      _ = 1024 * DA * (k:ℚ) / 2 ^ 24 + (2 ^ (-23:ℤ) + 2 ^ (-29:ℤ) + (2 ^ (-23:ℤ) + 2 ^ (-24:ℤ))) := by ring
+  · -- decay
+    rw [hst] at hs2
+    rw [v1, v2, hs2, hst, if_neg (by decide)]
+    dsimp only
+    rw [sp.sus]
+    have hb := blend_lipschitz i1.sus.2.1 i1.sus.2.2.1 rd0 rd1 rd0' rd1'
+    calc |blend a1.sustain.val (sampleQ Dq a2.pa.acc) - blend a1.sustain.val (sampleQ Dq a1.pa.acc)|
+        ≤ |sampleQ Dq a2.pa.acc - sampleQ Dq a1.pa.acc| + (2 ^ (-23:ℤ) + 2 ^ (-24:ℤ)) := hb
+      _ ≤ (1024 * DD * (k:ℚ) / 2 ^ 24 + (2 ^ (-23:ℤ) + 2 ^ (-29:ℤ))) + (2 ^ (-23:ℤ) + 2 ^ (-24:ℤ)) := by linarith [sD]
+      _ = 1024 * DD * (k:ℚ) / 2 ^ 24 + (2 ^ (-23:ℤ) + 2 ^ (-29:ℤ) + (2 ^ (-23:ℤ) + 2 ^ (-24:ℤ))) := by ring
+  · rw [hst] at ht; simp [AdsrState.timed] at ht
+  · -- release
+    rw [hst] at hs2
+    rw [v1, v2, hs2, hst, if_neg (by decide)]
+    dsimp only
+    rw [sp.off]
+    have hb := release_lipschitz i1.off.2.1 i1.off.2.2.1 rd0 rd1 rd0' rd1'
+    have hnum : (2:ℚ) ^ (-24:ℤ) ≤ 2 ^ (-23:ℤ) + 2 ^ (-24:ℤ) := by norm_num
+    calc |rnd (a1.offLevel.val * sampleQ Dq a2.pa.acc) - rnd (a1.offLevel.val * sampleQ Dq a1.pa.acc)|
+        ≤ |sampleQ Dq a2.pa.acc - sampleQ Dq a1.pa.acc| + 2 ^ (-24:ℤ) := hb
+      _ ≤ (1024 * DD * (k:ℚ) / 2 ^ 24 + (2 ^ (-23:ℤ) + 2 ^ (-29:ℤ))) + (2 ^ (-23:ℤ) + 2 ^ (-24:ℤ)) := by linarith [sD]
+      _ = 1024 * DD * (k:ℚ) / 2 ^ 24 + (2 ^ (-23:ℤ) + 2 ^ (-29:ℤ) + (2 ^ (-23:ℤ) + 2 ^ (-24:ℤ))) := by ring
+
+theorem sampleA_zero : sampleQ Aq 0 = 0 := by
+  unfold sampleQ
+  simp only [Nat.zero_div, Nat.zero_mod, Nat.cast_zero, zero_div]
+  rw [interpQ_zero (attack_rising.rep 0)]
+  unfold Aq; rw [attack_first]; rfl
+
+/-- **gate-on at any moment**: the first tick of the new attack starts from the level currently being output -/
+theorem gate_on_step (a a2 : Adsr) (h : AInv a) (hne : a.state ≠ .attack) (e : a.gateOn.tick = some a2)
+    (hs : a2.state = .attack) :
+    |a2.value.val - a.value.val| ≤ (1024 * DA) * (a2.pa.acc : ℚ) / 2 ^ 24 + slack := by
+  obtain ⟨g1, g2, g3, g4⟩ := (C02.gate_on a).2 hne
+  have hg : AInv a.gateOn := by
+    obtain ⟨x, ex, ix⟩ := step_inv a h .gateOn trivial
+    simp only [C17.step, Option.some.injEq] at ex; subst ex; exact ix
+  obtain ⟨i2, v2⟩ := tick_value a.gateOn a2 hg e
+  obtain ⟨f1, _, _, _⟩ := tick_fields a.gateOn a2 e
+  rw [v2, hs]; simp only
+  rw [f1, g3]
+  obtain ⟨r0, r1⟩ := attack_rising.sample_range a2.pa.acc i2.ok.acc
+  have hb := blend_lipschitz (S := 0) (S' := sampleQ Aq a2.pa.acc) h.val.2.1 h.val.2.2.1 (le_refl _) (by norm_num) r0 r1
+  rw [blend_bottom h.val.2.2.2] at hb
+  have ss := sample_step Aq DA DA_small attack_T attack_cell_height 0 a2.pa.acc (by simpa using i2.ok.acc)
+  rw [Nat.zero_add, sampleA_zero] at ss
+  unfold slack
+  calc |blend a.value.val (sampleQ Aq a2.pa.acc) - a.value.val|
+      ≤ |sampleQ Aq a2.pa.acc - 0| + (2 ^ (-23:ℤ) + 2 ^ (-24:ℤ)) := hb
+    _ ≤ (1024 * DA * (a2.pa.acc:ℚ) / 2 ^ 24 + (2 ^ (-23:ℤ) + 2 ^ (-29:ℤ))) + (2 ^ (-23:ℤ) + 2 ^ (-24:ℤ)) := by linarith [ss]
+    _ = 1024 * DA * (a2.pa.acc:ℚ) / 2 ^ 24 + (2 ^ (-23:ℤ) + 2 ^ (-29:ℤ) + (2 ^ (-23:ℤ) + 2 ^ (-24:ℤ))) := by ring
+
+/-- **gate-off at any moment**: the first tick of the release starts from the level currently being output -/
+theorem gate_off_step (a a2 : Adsr) (h : AInv a) (hst : a.state = .attack ∨ a.state = .decay ∨ a.state = .sustain)
+    (e : a.gateOff.tick = some a2) (hs : a2.state = .release) :
+    |a2.value.val - a.value.val| ≤ (1024 * DD) * (a2.pa.acc : ℚ) / 2 ^ 24 + slack := by
+  obtain ⟨g1, g2, g3, g4⟩ := (C02.gate_off a).2 hst
+  have hg : AInv a.gateOff := by
+    obtain ⟨x, ex, ix⟩ := step_inv a h .gateOff trivial
+    simp only [C17.step, Option.some.injEq] at ex; subst ex; exact ix
+  obtain ⟨i2, v2⟩ := tick_value a.gateOff a2 hg e
+  obtain ⟨_, f2, _, _⟩ := tick_fields a.gateOff a2 e
+  rw [v2, hs]; simp only
+  rw [f2, g3]
+  obtain ⟨r0, r1⟩ := decay_falling.sample_range a2.pa.acc i2.ok.acc
+  have hb := release_lipschitz (S := 1) (S' := sampleQ Dq a2.pa.acc) h.val.2.1 h.val.2.2.1 (by norm_num) (le_refl _) r0 r1
+  rw [mul_one, h.val.2.2.2] at hb
+  have ss := sample_step Dq DD DD_small decay_T decay_cell_height 0 a2.pa.acc (by simpa using i2.ok.acc)
+  rw [Nat.zero_add, sampleD_zero] at ss
+  unfold slack
+  have hnum : (2:ℚ) ^ (-24:ℤ) ≤ 2 ^ (-23:ℤ) + 2 ^ (-24:ℤ) := by norm_num
+  have hsym : |sampleQ Dq a2.pa.acc - 1| = |sampleQ Dq a2.pa.acc - 1| := rfl
+  calc |rnd (a.value.val * sampleQ Dq a2.pa.acc) - a.value.val|
+      ≤ |sampleQ Dq a2.pa.acc - 1| + 2 ^ (-24:ℤ) := hb
+    _ ≤ (1024 * DD * (a2.pa.acc:ℚ) / 2 ^ 24 + (2 ^ (-23:ℤ) + 2 ^ (-29:ℤ))) + (2 ^ (-23:ℤ) + 2 ^ (-24:ℤ)) := by linarith [ss]
+    _ = 1024 * DD * (a2.pa.acc:ℚ) / 2 ^ 24 + (2 ^ (-23:ℤ) + 2 ^ (-29:ℤ) + (2 ^ (-23:ℤ) + 2 ^ (-24:ℤ))) := by ring
+
 end C03
